@@ -242,6 +242,26 @@ def run_case(case, workdir):
             check_open(rec, sub, val, ref, desc, p, None if limit is None else int(limit), False, True, parsed)
         except Exception as e:
             rec.fail("attribute_access", sub, exc_text(e))
+    # 'link/../name' where link is a symbolic link to a directory elsewhere: the operating system resolves it to the plotfile
+    # next to the link's TARGET; the plotfile of the same name next to the link itself (this case's own) is a decoy
+    os.makedirs(os.path.join(workdir, "deep", "sub"))
+    os.symlink(os.path.join("deep", "sub"), os.path.join(workdir, "lnk"))
+    d2 = dict(desc, time=-2.75, seed=desc.get("seed", 0) + 11)
+    path2, ref2 = build(d2, os.path.join(workdir, "deep"), os.path.basename(path))
+    parsed2 = ParsedPlot(path2)
+    for form, p in (("symlink_dotdot_relative", os.path.join("lnk", "..", os.path.basename(path))),
+                    ("symlink_dotdot_absolute", os.path.join(workdir, "lnk", "..", os.path.basename(path)))):
+        sub = {"path_form": form, "limit_level": None, "header_only": False, "maxmins": True}
+        with vpool.controlled():
+            st, val = call(lambda: PlotfileCooker(p, maxmins=True))
+        rec.exe([dh, "form", form], nontrivial=True)
+        if st == "exc":
+            rec.fail("open_raised", sub, exc_text(val))
+            continue
+        try:
+            check_open(rec, sub, val, ref2, d2, p, None, False, True, parsed2)
+        except Exception as e:
+            rec.fail("attribute_access", sub, exc_text(e))
     rec.sample({"desc": desc, "opens": "limit in None,0..finest+1 x header_only x maxmins"})
     return rec.result()
 
